@@ -13,6 +13,11 @@ LEAVES_UTF8 = [("lit", (EACUTE,), False), ("lit", (A, EURO), False), ("cls", (EA
                ("cls", (A,), (), True, False), ("any",), ("lit", (NL,), False)]
 
 
+PRED_LEAVES = [("pred", False, "true"), ("pred", True, "true"), ("pred", False, "false")]
+STATE_LEAVES = [("state", "set", "x", 1), ("state", "inc", "x", 1), ("state", "app", "cl", 2), ("pred", False, "eq", "x", 1)]
+RUNES = {"a": [A], "b": [B], "A": [UA], "nl": [NL], "eacute": list("\u00e9".encode()), "euro": list("\u20ac".encode())}
+
+
 def build(g, t):
     k = t[0]
     if k == "lit":
@@ -34,6 +39,10 @@ def build(g, t):
         return g.action(g.seq([g.label(build(g, t[1])), build(g, t[2])]))
     if k == "ref":
         return g.ref(t[1])
+    if k == "pred":       # ("pred", negated, op)
+        return g.pred(t[1], t[2], key=(t[3] if len(t) > 3 else "x"), arg=(t[4] if len(t) > 4 else 0))
+    if k == "state":      # ("state", op, key, arg)
+        return g.state(t[1], t[2], t[3])
     raise ValueError(k)
 
 
